@@ -974,18 +974,18 @@ func (ex *Executor) paramValue(st *State, name string, t types.Type) Value {
 		name = "p." + name
 	}
 	if isTime(t) {
-		return &TimeV{T: Const(name, SInt)}
+		return &TimeV{T: paramConst(name, SInt)}
 	}
 	if s, ok := scalarSort(t); ok {
 		if isNamed(t, "net/http", "Request") {
 			if _, isPtr := t.(*types.Pointer); isPtr {
-				return &ReqV{Base: Const(name, SInt)}
+				return &ReqV{Base: paramConst(name, SInt)}
 			}
 		}
 		if isNamed(t, "context", "Context") {
-			return &CtxV{Base: Const(name, SInt)}
+			return &CtxV{Base: paramConst(name, SInt)}
 		}
-		c := Const(name, s)
+		c := paramConst(name, s)
 		switch t.Underlying().(type) {
 		case *types.Pointer, *types.Interface, *types.Map, *types.Signature, *types.Chan:
 			// objects that exist before the call are distinct from everything
@@ -1000,7 +1000,7 @@ func (ex *Executor) paramValue(st *State, name string, t types.Type) Value {
 		return c
 	}
 	if isByteSlice(t) {
-		return &BytesV{T: Const(name, SStr)}
+		return &BytesV{T: paramConst(name, SStr)}
 	}
 	if u, ok := t.Underlying().(*types.Struct); ok {
 		sv := &StructV{T: t}
@@ -1132,4 +1132,15 @@ func (ex *Executor) cutLoop(st *State, b *ssa.BasicBlock, why string) {
 		ex.LoopCuts = map[string]int{}
 	}
 	ex.LoopCuts[b.Parent().String()+"@"+ex.pos(firstPos(b))+" ("+why+")"]++
+}
+
+// paramConst: the constant standing for a parameter. Parameter names repeat
+// across functions with different types (s string / s *SMSValidator); the
+// symbol table is global, so a name already taken with another sort gets the
+// sort appended.
+func paramConst(name, sort string) *Term {
+	if d := lookupDecl(name); d != nil && (d.Ret != sort || len(d.Args) != 0) {
+		return Const(name+"$"+sort, sort)
+	}
+	return Const(name, sort)
 }
